@@ -49,6 +49,7 @@ type FuncContract struct {
 	File     string
 	Line     int
 	Used     bool
+	Callbacks map[string][]*Clause // host contract: what it guarantees whenever it calls its function-typed parameter
 	PanicOK  []string // obligation-name globs for explicit panics that are accepted as intended behaviour (never for remote-input code)
 	Fresh    bool     // results are freshly allocated objects
 }
@@ -102,7 +103,7 @@ func newContracts() *Contracts {
 	return &Contracts{Funcs: map[string]*FuncContract{}, Specs: map[string]*SpecFunc{}, Ifaces: map[string]*FuncContract{}}
 }
 
-var keywordRe = regexp.MustCompile(`^(func|iface|spec|ufunc|axiom|lemma|requires|ensures|modifies|loop|inline|extern|pure|global|fresh|panicok)\b`)
+var keywordRe = regexp.MustCompile(`^(func|iface|spec|ufunc|axiom|lemma|requires|ensures|modifies|loop|inline|extern|pure|global|fresh|panicok|callback)\b`)
 
 // loadContractFile parses one file; pkgPath is "" for /verif/specs files (full keys).
 func (C *Contracts) loadContractFile(path, pkgPath string) error {
@@ -258,6 +259,20 @@ func (C *Contracts) loadContractFile(path, pkgPath string) error {
 				default:
 					return fail(fmt.Errorf("unknown loop clause %q", f[1]))
 				}
+			case "callback":
+				f := strings.Fields(rest)
+				if len(f) < 2 {
+					return fail(fmt.Errorf("callback <param> [label] expr"))
+				}
+				lab, src := splitLabel(strings.TrimSpace(strings.TrimPrefix(rest, f[0])))
+				e, err := parseExpr(src)
+				if err != nil {
+					return fail(err)
+				}
+				if cur.Callbacks == nil {
+					cur.Callbacks = map[string][]*Clause{}
+				}
+				cur.Callbacks[f[0]] = append(cur.Callbacks[f[0]], &Clause{Kind: "callback", Label: lab, Expr: e, Src: src, File: path, Line: it.line})
 			case "inline":
 				cur.Inline = true
 			case "extern":
